@@ -1,6 +1,7 @@
 import GlueVerif.Lemmas.C10Top
 import GlueVerif.Lemmas.C10Hist
 import GlueVerif.Lemmas.C10Reduce
+import GlueVerif.Lemmas.C10Dtype
 /-!
 # C10 — statistics and histograms equal their definition regardless of chunking or views
 
@@ -154,6 +155,78 @@ theorem reduce_partition_sum (xs ys : List Val) (hx : ∀ v ∈ xs, v.isFin = tr
     (hy : ∀ v ∈ ys, v.isFin = true) :
     reduceSum (xs ++ ys) = nanCombine Val.add (reduceSum xs) (reduceSum ys) :=
   Lemmas.C10.reduceSum_append xs ys hx hy
+
+/-! ## storage dtypes and the acceptance of a double-precision result (round 2) -/
+
+/-- **The statistic does not depend on the storage dtype.** Two components holding the same values —
+whatever numeric dtypes (`float16 … int64, uint8 …, bool`) their elements are tagged with — have the
+same specification: same shape, same cells, same kept values per cell (hence the same acceptance
+radius).  A result that changes when a `float32` component is re-stored as `float64` therefore
+violates the property for at least one of the two. -/
+theorem spec_dtype_independent (cfg : Cfg) (sh : List Nat) (sd₁ sd₂ : Idx → Stored) (sel : SelM)
+    (vk : ViewKind) (v : List VItem) (red : List Bool) (hv : ∀ i, (sd₁ i).v = (sd₂ i).v) :
+    specStatStored cfg sh sd₁ sel vk v red = specStatStored cfg sh sd₂ sel vk v red ∧
+    ∀ k, specCellValsStored cfg sh sd₁ sel vk v red k = specCellValsStored cfg sh sd₂ sel vk v red k := by
+  have h : (fun i => (sd₁ i).v) = (fun i => (sd₂ i).v) := funext hv
+  unfold specStatStored specCellValsStored
+  rw [h]
+  exact ⟨rfl, fun _ => rfl⟩
+
+-- the hypothesis is satisfiable by different dtypes: 2048 is a float16, a float32 and an int16 value,
+-- 2049 is not a float16 value, 2^24+1 is an int32 but not a float32 value
+example : DType.f2.holds (.fin 2048) = true ∧ DType.f4.holds (.fin 2048) = true ∧
+    DType.i2.holds (.fin 2048) = true ∧ DType.f2.holds (.fin 2049) = false ∧
+    DType.i4.holds (.fin 16777217) = true ∧ DType.f4.holds (.fin 16777217) = false ∧
+    DType.u1.holds (.fin (-1)) = false ∧ DType.f2.holds (.fin 65504) = true ∧
+    DType.f2.holds (.fin 65536) = false ∧ DType.i8.holds (.fin 9007199254740993) = true ∧
+    DType.f8.holds (.fin 9007199254740993) = false ∧ DType.i1.holds .nan = false := by decide +kernel
+
+/-- **Every cell of the specification is the reducer over `specCellVals`** — the list the driver
+computes the acceptance radius from is exactly the list of values the specified statistic is taken
+over (all paths, incl. the compact `SliceSubsetState` form and out-of-range cells). -/
+theorem spec_cell_reduce (cfg : Cfg) (sh : List Nat) (data : Idx → Val) (sel : SelM)
+    (vk : ViewKind) (v : List VItem) (red : List Bool) (k : Idx) :
+    (specStat cfg sh data sel vk v red).cell k =
+      reduce cfg.stat (specCellVals cfg sh data sel vk v red k) :=
+  Lemmas.C10.specStat_cell_reduce cfg sh data sel vk v red k
+
+/-- **The acceptance rule admits the exact statistic**, for every statistic and every list of kept
+values (any magnitudes, NaN / ±inf results included). -/
+theorem accept_exact (st : Stat) (xs : List Val) : specAccept st xs (reduce st xs) = true :=
+  Lemmas.C10.specAccept_exact st xs
+
+/-- **The modelled implementation is accepted** — partial for the same reason as
+`stat_refines_spec_partial` (F10c): under `statP`, every in-range cell computed by the model of
+`Data.compute_statistic` (any path, any chunk limit) is an acceptable value of the specified
+statistic over the specified kept values.  (The model computes in exact arithmetic; what the real
+code adds is double-precision rounding, which `specAccept` bounds from the inputs.) -/
+theorem stat_accepted_partial (cfg : Cfg) (sh : List Nat) (data : Idx → Val) (sel : SelM)
+    (vk : ViewKind) (v : List VItem) (ak : AxisKind) (red : List Bool) (nmax : Nat)
+    (hP : statP cfg sh data sel vk v red = true) (k : Idx)
+    (hk : inRange k (specStat cfg sh data sel vk v red).shape = true) :
+    specAccept cfg.stat (specCellVals cfg sh data sel vk v red k)
+      ((implStat cfg sh data sel vk v ak red nmax).cell k) = true := by
+  rw [(Lemmas.C10.implStat_eq_spec cfg sh data sel vk v ak red nmax hP).2 k hk,
+    Lemmas.C10.specStat_cell_reduce]
+  exact Lemmas.C10.specAccept_exact _ _
+
+/-- Witnesses for the acceptance rule and for F10d / F10d-int (replayed on the real code by the harness).
+`[2^24, 1, 1, 1]` (float32 values): the sum is `2^24+3`, exactly; a single-precision accumulation
+(`2^24`) is rejected.  `[2^53, 1, 1]`: a double-precision accumulation may lose both ones (`2^53`) and
+is accepted, `2^53 + 16` is not.  float16 `[60000, 60000]`: mean `60000`, not `+inf`.
+int8 `[-128, 127]`: the median / 50th percentile is `-1/2`, not `255/2`. -/
+theorem accept_witness :
+    specAccept .sum [.fin 16777216, .fin 1, .fin 1, .fin 1] (.fin 16777219) = true ∧
+    specAccept .sum [.fin 16777216, .fin 1, .fin 1, .fin 1] (.fin 16777216) = false ∧
+    specAccept .sum [.fin 9007199254740992, .fin 1, .fin 1] (.fin 9007199254740992) = true ∧
+    specAccept .sum [.fin 9007199254740992, .fin 1, .fin 1] (.fin 9007199254741008) = false ∧
+    specAccept .mean [.fin 60000, .fin 60000] (.fin 60000) = true ∧
+    specAccept .mean [.fin 60000, .fin 60000] .pinf = false ∧
+    specAccept (.percentile 50) [.fin (-128), .fin 127] (.fin (-1 / 2)) = true ∧
+    specAccept (.percentile 50) [.fin (-128), .fin 127] (.fin (255 / 2)) = false ∧
+    specAccept .maximum [.fin 9007199254740993, .fin 3] (.fin 9007199254740992) = true ∧
+    specAccept .maximum [.fin 16777217, .fin 3] (.fin 16777216) = false := by
+  decide +kernel
 
 /-! ## histograms -/
 
